@@ -74,7 +74,7 @@ def shard(p):
         # (b) compounds
         for _ in range(p["n_compound"]):
             xs, x = magnitude(rng)
-            form = rng.randint(0, 5)
+            form = rng.randint(0, 8)
             s1 = rng.choice("CF")
             s2 = rng.choice("KCF")
             if s1 == s2:
@@ -107,6 +107,30 @@ def shard(p):
                 else:
                     u1, u2 = "%s/%s" % (ctext, w1), "%s/%s" % (ttext, w2)
                     factor = (cs / ts) * (SLOPE[s2] / SLOPE[s1])
+            elif form in (6, 7, 8):
+                # companions whose dimensions cancel (min/s, ft/in, Hz*s ...): the compound as a whole has the dimension of a
+                # temperature, but it is not a lone scale - the zero point must not be added (seed C09-c)
+                ea = V.pick(rng, nonk)
+                same = [z for z in V.by_dims[ea["dims"]] if z["key"] != ea["key"] and z["dims"][4] == 0]
+                if not same:
+                    continue
+                eb = rng.choice(same)
+                ratio = V.factors_si([(ea, 1)])[0] / V.factors_si([(eb, 1)])[0]
+                if form == 6:
+                    u1, u2 = rng.choice(["%s*%s/%s", "%s/%s*%s"]) , w2
+                    if u1 == "%s*%s/%s":
+                        u1, factor = u1 % (w1, ea["word"], eb["word"]), ratio * SLOPE[s1] / SLOPE[s2]
+                    else:
+                        # `/` inverts everything after it: w1 / (eb * ea^-1) is spelled with a negative power
+                        u1, factor = "%s*%s*%s^-1" % (ea["word"], w1, eb["word"]), ratio * SLOPE[s1] / SLOPE[s2]
+                elif form == 7:
+                    u1, u2 = w1, "%s*%s/%s" % (w2, ea["word"], eb["word"])
+                    factor = SLOPE[s1] / SLOPE[s2] / ratio
+                else:
+                    if s1 == "K":
+                        continue
+                    u1, u2 = rng.choice(["K*K/%s" % w1, "K^2/%s" % w1, "K^2*%s^-1" % w1]), w2
+                    factor = F(1) / SLOPE[s1] / SLOPE[s2]
             elif form == 4:
                 u1, u2 = "°C*°F", rng.choice(["K^2", "K*°C", "°F*K"])
                 factor = F(5, 9) / {"K^2": F(1), "K*°C": F(1), "°F*K": F(5, 9)}[u2]
